@@ -103,6 +103,21 @@ def rule_sort_matches(ctx):
                 ctx.check(is_err or H.exits_by_panic_only(els), rule, "%s:%s:let-else" % (c01._short(path), A.pat_shape(m["pat"])),
                           "%s: `let %s = .. else` on a sort enum neither reports a type error nor stops" % (path, A.pat_shape(m["pat"])),
                           [bd["loc"][0], m["ln"]], detail={"fn": c01._short(path), "pattern": A.pat_shape(m["pat"])})
+                # the sort of a SUB-TERM is the user's: when the value taken apart is the result of a sub-judgment (tyck_k), the else
+                # branch has to be a diagnostic; a panic there is a crash on an ill-sorted program
+                if not is_err and H.exits_by_panic_only(els):
+                    env = A.ArmEnv()
+                    env.strip = True
+                    env.bind_params(h)
+                    env.absorb(h["body"])
+                    src = A.sexpr(m["init"], env)
+                    from_judgment = re.search(r"Tyck<'a>>::tyck_k |Tyck<'a>>::tyck_inner_k ", src) is not None \
+                        and "try_as_" not in src
+                    ctx.check(not from_judgment, rule, "%s:%s:let-else:sub-judgment-panics" % (c01._short(path), A.pat_shape(m["pat"])),
+                              "%s takes the result of a sub-judgment apart as %s with `else { unreachable!() }`: the sort of a sub-term "
+                              "is decided by the program (an empty `match` in analysis mode is a computation at any expected type), so "
+                              "an ill-sorted program crashes the checker instead of getting `Sort mismatch`"
+                              % (path, A.pat_shape(m["pat"])), [bd["loc"][0], m["ln"]], detail={"source": src[:160]})
     ctx.note("%s: %d matches and %d let-else on sort enums in check/" % (rule, n_m, n_l))
     ctx.floor(rule, "matches on sort enums", n_m, 70)
     ctx.floor(rule, "let-else on sort enums", n_l, 12)
@@ -286,6 +301,104 @@ def rule_binder_shadowing(ctx):
                       detail={"former": V, "component": comp, "filtered_by": bpath})
 
 
+def _term_and_pattern_judgments(ctx, rule):
+    facts = ctx.facts
+    for suffix, tyname in (("bitter::syntax::TermId> as zydeco_statics::check::Tyck<'a>>::tyck_inner_k", "Term"),
+                           ("bitter::syntax::PatId> as zydeco_statics::check::Tyck<'a>>::tyck_inner_k", "Pattern")):
+        fn = next((p for p in facts.bodies() if p.endswith(suffix)), None)
+        if fn is None:
+            ctx.anchor_lost(rule, "%s not found" % suffix)
+            continue
+        h = ctx.need_hir(rule, fn)
+        ms = [m for m in H.walk(h["body"]) if H.kind(m) == "Match" and not m.get("src")
+              and re.search(r"bitter::syntax::%s\b" % tyname, H.strip_refs(m["scrut"].get("ty") or ""))]
+        if not ms:
+            ctx.anchor_lost(rule, "%s: dispatch not found" % fn)
+            continue
+        yield tyname, fn, h, max(ms, key=lambda x: len(x["arms"]))
+
+
+def rule_leaf_pattern_kind(ctx):
+    """a pattern that stands for a value is checked against a VALUE type"""
+    rule = "leaf-pattern-kind"
+    ctx.rule(rule, "the leaf formers of the pattern judgment that accept a value at a type given by the program (variable, wildcard) "
+                   "compare the kind of that type with VType (Lub::lub_k(VType, type_kind(ty))): otherwise `fn (_ : Ret Int64) => ..` "
+                   "synthesises an arrow whose domain is a computation type")
+    n = 0
+    for tyname, fn, h, m in _term_and_pattern_judgments(ctx, rule):
+        if tyname != "Pattern":
+            continue
+        loc = ctx.facts.bodies()[fn]["loc"]
+        for a in m["arms"]:
+            v = A.pat_shape(a["pat"])
+            if not re.match(r"^(Var|Hole)\b", v):
+                continue
+            n += 1
+            ok = False
+            for c in H.walk(a["body"]):
+                if H.kind(c) in ("Call", "MethodCall") and re.search(r"Lub(>|)::lub_k$", H.callee(c) or ""):
+                    args = " ".join(A.sexpr(x, None) for x in H.call_args(c))
+                    env = A.ArmEnv()
+                    env.strip = True
+                    env.absorb(a["body"])
+                    args2 = " ".join(A.sexpr(x, env) for x in H.call_args(c))
+                    if "syntax::VType" in args2 and "type_kind" in args2:
+                        ok = True
+            ctx.check(ok, rule, "pattern:%s:value-kind" % v.split("(")[0],
+                      "the %s pattern does not compare the kind of the type it is checked against with VType: a computation type is "
+                      "accepted as the type of a bound / ignored VALUE" % v.split("(")[0], [loc[0], a["ln"]],
+                      detail={"former": v, "check": "lub_k(VType, type_kind(ty))"})
+    ctx.floor(rule, "leaf pattern formers", n, 2)
+
+
+def rule_sealed_intro(ctx):
+    """looking through a seal to CHECK an introduction form must not change the type that is returned"""
+    rule = "sealed-intro"
+    ctx.rule(rule, "in the term judgment, an analysis arm that looks through a seal of its expected type to check the components of an "
+                   "introduction form (reveal_or_refine_*_k on the expected type: tuples) returns the expected type itself, never a type "
+                   "rebuilt from the component types: `def y : P = (1, 2)` with a sealed `def P = Int64 * Int64` would otherwise give `y` "
+                   "the representation type, usable outside P's definition")
+    n = 0
+    for tyname, fn, h, m in _term_and_pattern_judgments(ctx, rule):
+        if tyname != "Term":
+            continue
+        loc = ctx.facts.bodies()[fn]["loc"]
+        for a in m["arms"]:
+            for sm in H.walk(a["body"]):
+                if not (H.kind(sm) == "Match" and not sm.get("src") and "check::Switch<" in (sm.get("scrut_ty") or "")):
+                    continue
+                for ia in sm["arms"]:
+                    binds = [b for b in H.pat_bindings(ia["pat"]) if "syntax::TypeId" in (b.get("ty") or "")]
+                    if not binds:
+                        continue
+                    reveals = [c for c in H.walk(ia["body"]) if H.kind(c) in ("Call", "MethodCall")
+                               and re.search(r"::reveal_or_refine_\w*product\w*_k$", H.callee(c) or "")]
+                    if not reveals:
+                        continue
+                    exp = binds[0]["local"]
+                    # the product branch of the match on the revealed type
+                    for pm in H.walk(ia["body"]):
+                        if not (H.kind(pm) == "Match" and not pm.get("src") and any(r is y for r in reveals for y in H.walk(pm["scrut"]))):
+                            continue
+                        for pa in pm["arms"]:
+                            if not A.pat_shape(pa["pat"]).startswith("Prod"):
+                                continue
+                            n += 1
+                            outs = [c for c in H.walk(pa["body"]) if H.kind(c) in ("Call", "Struct") and
+                                    re.search(r"TermAnnId::Value$", (H.callee(c) or "") if H.kind(c) == "Call" else "")]
+                            env = A.ArmEnv()
+                            env.strip = True
+                            env.names[exp] = "$EXPECTED"
+                            env.absorb(pa["body"])
+                            tys_ = [A.sexpr(H.call_args(c)[1], env) for c in outs if len(H.call_args(c)) == 2]
+                            ctx.check(bool(tys_) and all(t == "$EXPECTED" for t in tys_), rule, "term:%s:returns-expected" % A.pat_shape(a["pat"]),
+                                      "the %s judgment, checked against a (possibly sealed) product type, returns %s instead of the type it "
+                                      "was checked against: a sealed product is given away as its representation"
+                                      % (A.pat_shape(a["pat"]), [t[:100] for t in tys_]), [loc[0], pa["ln"]],
+                                      detail={"former": A.pat_shape(a["pat"]), "returns": "expected"})
+    ctx.floor(rule, "introduction arms that look through a seal", n, 1)
+
+
 def rule_type_traversals(ctx):
     """substitution, hole resolution, final normalisation and the support collector reach every component of every type former"""
     from .. import trav
@@ -311,7 +424,7 @@ def rule_type_traversals(ctx):
         if fn not in ctx.facts.bodies():
             ctx.anchor_lost(rule, fn + " not found")
             continue
-        n += trav.check_traversal(ctx, rule, fn, fam, r"statics::syntax::TypeId\b", label=fn.split("::")[-1], dispatch=disp,
+        n += trav.check_traversal(ctx, rule, fn, fam, r"statics::syntax::(TypeId|ExistsMode)\b", label=fn.split("::")[-1], dispatch=disp,
                                   allow_default=True, **extra)
     ctx.floor(rule, "type components handed to their pass", n, 90)
 
@@ -378,6 +491,8 @@ def run(ctx):
     c01.rule_declaration_lookup(ctx)
     rule_binder_shadowing(ctx)
     rule_shape_assumptions(ctx)
+    rule_leaf_pattern_kind(ctx)
+    rule_sealed_intro(ctx)
     rule_type_traversals(ctx)
     ctx.rule("normalisation", "type-level beta-normalisation performs the audited steps: an application is unfolded into its whole "
                               "left-associated spine, the head AND every argument of the spine are normalised, abstractions consume "
